@@ -259,3 +259,36 @@ func VerifC19_APIError() {
 	}
 	verif_Assert(apierror.DecodeError(apierror.EncodeError(nil)) == nil, "no error encodes to nothing")
 }
+
+// C19 (API errors keep their status and message across the wire, plain-text
+// form): what http.Error puts on the wire for an API error — the message
+// followed by a newline, or just a newline for a status-only error — is read
+// back by FromResponse as the same status and message.
+func VerifC19_FromResponse() {
+	status := []int{0, 400, 404, 429, 500}[verif_Choose("status", 0, 4)]
+	msg := []string{"", "not found", "bad key"}[verif_Choose("message", 0, 2)]
+	trail := []string{"", "\n", " \r\n"}[verif_Choose("trailingWhitespace", 0, 2)]
+	err := apierror.FromResponse(status, []byte(msg+trail))
+	verif_Reach("decoded")
+	if status == 0 && msg == "" {
+		verif_Assert(err == nil, "no status and a blank body is no error")
+		return
+	}
+	verif_Assert(err != nil, "a status or a message is an error")
+	if err == nil {
+		return
+	}
+	var ae *apierror.Error
+	if status != 0 {
+		verif_Assert(errors.As(err, &ae) && ae.Status() == status, "the status survives")
+	} else {
+		verif_Assert(!errors.As(err, &ae), "no status, no API error")
+	}
+	if msg != "" {
+		verif_Assert(err.Error() == msg, "the message survives, without the transport's trailing whitespace")
+	} else if ae != nil {
+		// a status-only error: the same as apierror.New(nil, status)
+		same := apierror.New(nil, status)
+		verif_Assert(ae.Error() == same.Error() && ae.Text() == same.Text() && errors.Unwrap(ae) == nil, "a status-only error stays status-only (blank body)")
+	}
+}
